@@ -284,6 +284,18 @@ def check_window_object(name, N, kw):
         if not (wo.enbw == e0 or (wo.enbw != wo.enbw and e0 != e0)):          # (a window whose samples sum to 0 has ENBW nan)
             bad.append(('window_object_after_use/%s/enbw' % GEN_OF[name], 'Window(%d, %r, **%r).enbw changed after %s was used' % (N, name, kw, what)))
             break
+    # copies of the object (copy, deepcopy, a pickle round trip) report the same samples, length and ENBW
+    if not bad:
+        import copy, pickle
+        for what, f in (('copy.copy', copy.copy), ('copy.deepcopy', copy.deepcopy), ('pickle round trip', lambda o: pickle.loads(pickle.dumps(o)))):
+            try:
+                c = f(wo)
+                ok = (np.shape(c.data) == np.shape(w) and np.array_equal(c.data, w, equal_nan=True) and c.N == N
+                      and (c.enbw == wo.enbw or (c.enbw != c.enbw and wo.enbw != wo.enbw)))
+            except Exception as e:
+                bad.append(('window_object_copy/%s/raises' % GEN_OF[name], 'Window(%d, %r, **%r): %s raised %r' % (N, name, kw, what, e))); break
+            if not ok:
+                bad.append(('window_object_copy/%s/data' % GEN_OF[name], 'Window(%d, %r, **%r): its %s does not report the same samples / length / ENBW' % (N, name, kw, what))); break
     ms = float(np.sum(np.asarray(w, dtype=float) ** 2) / N)
     if not bad and not abs(wo.mean_square - ms) <= 1e-12 * max(ms, 1e-300):
         bad.append(('window_object_after_use/%s/mean_square' % GEN_OF[name], 'Window(%d, %r).mean_square = %r, sum w^2 / N = %r' % (N, name, wo.mean_square, ms)))
